@@ -325,6 +325,11 @@ pub fn sweep_vals(ctx: &Ctx, ty: &Ty) -> Vec<Val> {
                 vec![big(x, 300_007)]
             }
             Some(Arg::Ty(Ty::String)) => vec![Val::Str("0123456789abcdef".repeat(65_536)), Val::Str("épsilon-serde ".repeat(110_000))],
+            // counts rather than bytes: more than 2^16 deep-copy items, with alignment padding inside the items
+            Some(Arg::Ty(Ty::Vec(e))) if **e == Ty::opt(Ty::vec(Ty::Prim(vmodel::ty::Prim::U32))) => {
+                vec![Val::Seq((0..65_541u32).map(|i| if i % 5 == 4 { Val::Var(0, vec![]) } else { Val::Var(1, vec![Val::Seq(vec![Val::P(i.to_ne_bytes().to_vec()); (i % 3) as usize])]) }).collect())]
+            }
+            Some(Arg::Ty(Ty::Vec(e))) if **e == Ty::String => vec![Val::Seq((0..65_537u32).map(|i| Val::Str(format!("s{}", i % 977))).collect())],
             _ => vec![],
         };
         let base = vmodel::val::min_val(ctx.u, ty);
